@@ -79,10 +79,27 @@ def _gen_call(rng, meta):
         if conv == "other":
             lons = [(x - 360 if x > 180 else (x + 360 if x < 0 else x)) for x in lons]
         lats = [round(lat0 + rng.uniform(0, 5), 2) for _ in range(n)]
-        method = rng.choice(["idw", "nearest", "bbox", "nearest"])
+        method = rng.choice(["idw", "nearest", "bbox", "nearest", None, None])
         kw = {"method": method, "tolerance": rng.choice([2.0, 10.0, 10.0])}
         if method == "nearest" and rng.random() < 0.3:
             kw["unique"] = True
+        if method is None:
+            # exact matches only: query the sites' own coordinates (sometimes one twice, sometimes one that is absent)
+            slon, slat = D.site_coords(recipe)
+            pick = [rng.randrange(len(slon)) for _ in range(n)]
+            if rng.random() < 0.5 and len(pick) > 1:
+                pick[-1] = pick[0]
+            lons = [float(slon[i]) for i in pick]
+            lats = [float(slat[i]) for i in pick]
+            if rng.random() < 0.25:
+                lats[-1] = round(lats[-1] + 0.5, 3)
+            extra = rng.choice(["none", "none", "unique", "missing", "exact"])
+            if extra == "unique":
+                kw["unique"] = True
+            elif extra == "missing":
+                kw["missing"] = "ignore"
+            elif extra == "exact":
+                kw["exact"] = False
         return {"m": "sel", "via": "ds", "lons": lons, "lats": lats, "kw": kw, "as_array": rng.random() < 0.4}
     pool = rng.choices(["stats", "partition", "transform", "fit", "all"], [6, 5, 2, 1, 1])[0]
     op = O.gen_op(rng, recipe, pool)
